@@ -27,7 +27,8 @@ CLAIM = dict(
           "parse (all templates); formatting replaces the k-th placeholder by the k-th argument rendered per directive and copies "
           "literals verbatim, never panics; errors are exactly malformed template, count mismatch, {} on a non-displayable value, "
           "numeric directive on a non-number, malformed directive (first failing placeholder, left to right); the directive "
-          "machine accepts exactly '+'? ('.' digit*)? ('E'|'%')? with precision <= 1000 and sets the flags accordingly. "
+          "machine accepts exactly '+'? ('.' digit*)? ('E'|'%')? with precision <= 1000 and sets the flags accordingly; the "
+          "integer printed by %.Nf is the nearest to |x|*10^N with ties to even and printed digit strings denote their number. "
           "Tied to the code on every run by differential execution (texts ASCII/CJK/astral/combining x index pairs incl. negative, "
           "out of range, fractional, non-finite; templates well- and ill-formed x argument lists x boundary doubles x precisions)."),
     note=TB + ("Go library behaviour is restated, not verified: unicode/utf8.DecodeRune (from C17), strings.Split/Index/HasPrefix, "
@@ -150,7 +151,8 @@ def rand_double(rng):
 # ----------------------------------------------------------------------------- python oracle for %v
 
 def go_v(x):
-    """Go's %v for a float64: shortest round-trip digits (here: Python repr) in %g layout with exponent threshold 6... (-4 <= exp < 21 is NOT Go)."""
+    """Go's %v for a float64 (strconv 'g', shortest): shortest round-trip digits (taken from Python's repr, an independent
+    implementation), laid out by strconv's %g rule: %e form iff exp < -4 or exp >= 6 (eprec = 6 when the precision is 'shortest')."""
     if x != x:
         return "NaN"
     if x == float("inf"):
@@ -164,22 +166,12 @@ def go_v(x):
     ds = "".join(str(d) for d in t.digits)
     dp = len(ds) + t.exponent
     ds = ds.rstrip("0") or "0"
-    # leading zeros cannot occur in repr digits of a non-zero value except "0.xxx" forms handled by Decimal
     ds2 = ds.lstrip("0")
     dp -= len(ds) - len(ds2)
     ds = ds2
     nd = len(ds)
     exp = dp - 1
-    if exp < -4 or exp >= 21:
-        pass
-    if exp < -4 or exp >= max(nd, 21) and False:
-        pass
-    eprec = 21
-    # strconv %g with shortest: eprec = 6 ... but fmt's %v raises it to 21 (fmt/format.go fmtFloat: "%e is used if the exponent
-    # from the conversion is less than -4 or greater than or equal to the precision. if precision was the shortest possible, use
-    # precision 21 for %e"): decided by observation below
-    eprec = GO_V_EPREC
-    if exp < -4 or exp >= eprec:
+    if exp < -4 or exp >= 6:
         m = ds[0] + ("." + ds[1:] if nd > 1 else "")
         return sign + m + "e" + ("-" if exp < 0 else "+") + ("%02d" % abs(exp))
     if dp <= 0:
@@ -187,9 +179,6 @@ def go_v(x):
     if nd <= dp:
         return sign + ds + "0" * (dp - nd)
     return sign + ds[:dp] + "." + ds[dp:]
-
-
-GO_V_EPREC = 21
 
 
 # ----------------------------------------------------------------------------- Coq terms
@@ -234,6 +223,10 @@ RUN = {
                "[ (if kind =? 0 then render_f plus prec x else if kind =? 1 then render_e plus prec x else render_g6 plus x); [encode_bits x] ]"),
     "int": "fun b => [[go_int (decode_bits b)]]",
 }
+
+
+RUN_SLICE_GROUP = ("fun c : list Z * list (Z * Z) => let '(s, pairs) := c in List.map (fun p : Z * Z => "
+                   "match str_exec_slice_bits s (fst p) (snd p) with SOk r => [0 :: r] | SExc => [[1]] | SCrash => [[2]] | SOutOfFuel => [[3]] end) pairs")
 
 
 def case_term(j):
@@ -388,11 +381,31 @@ def evaluate(chk, jobs):
             j["_rv"] = outs[i].get("rv", {}) if isinstance(outs[i], dict) else {}
     model = {}
     kinds = sorted(set(j["k"] for j in jobs))
-    for k in kinds:
+    def run_kind(k):
         idx = [i for i, j in enumerate(jobs) if j["k"] == k]
-        res = core.coq_run_cases("c14" + k, IMPORTS, RUN[k], [case_term(jobs[i]) for i in idx], shard=250)
+        out = {}
+        if k == "slice":
+            # parsing the case terms dominates the cost of the Coq run: one term per text, all its index pairs inside
+            groups = {}
+            for i in idx:
+                groups.setdefault(json.dumps(jobs[i]["s"], sort_keys=True), []).append(i)
+            glist = list(groups.values())
+            terms = ["(%s, [%s])" % (zl(sbytes(jobs[g[0]]["s"])),
+                                      ";".join("(%d,%d)" % (int(jobs[i]["a"], 16), int(jobs[i]["b"], 16)) for i in g)) for g in glist]
+            res = core.coq_run_cases("c14slice", IMPORTS, RUN_SLICE_GROUP, terms, shard=12, jobs=4)
+            for g, vs in zip(glist, res):
+                for i, v in zip(g, vs):
+                    out[i] = v
+            return out
+        res = core.coq_run_cases("c14" + k, IMPORTS, RUN[k], [case_term(jobs[i]) for i in idx], shard=200, jobs=4)
         for i, v in zip(idx, res):
-            model[i] = v
+            out[i] = v
+        return out
+
+    from concurrent.futures import ThreadPoolExecutor
+    with ThreadPoolExecutor(max_workers=3) as ex:
+        for out in ex.map(run_kind, kinds):
+            model.update(out)
     # 3. compare
     for i, j in enumerate(jobs):
         o = outs[i]
@@ -542,7 +555,7 @@ SPECIAL_IDX = [1.5, -0.5, 2.999, 0.999, -1.5, 1e300, -1e300, float("nan"), float
 
 def gen_textops(rng, quick):
     jobs = []
-    ntexts = 60 if quick else 500
+    ntexts = 45 if quick else 500
     for t in range(ntexts):
         n = rng.choice([0, 1, 2, 2, 3, 3, 4, 5, 6, 8])
         cps = rand_text(rng, n)
@@ -559,7 +572,7 @@ def gen_textops(rng, quick):
         # all index pairs around the text for short texts, a sample otherwise
         rngidx = list(range(-n - 2, n + 3))
         pairs = [(a, b) for a in rngidx for b in rngidx]
-        limit = 40 if quick else 120
+        limit = 30 if quick else 120
         if len(pairs) > limit:
             pairs = rng.sample(pairs, limit)
         for a, b in pairs:
@@ -616,7 +629,7 @@ def rand_directive(rng):
         elif p < 0.85:
             prec = str(rng.randrange(21, 80))
         elif p < 0.9:
-            prec = rng.choice(["300", "999", "1000", "0007", "00000000000000000000012"])
+            prec = rng.choice(["300", "999", "1000", "0007", "00000000000000000000012", "0012", "100", "0"])
         elif p < 0.95:
             prec = ""
         else:
@@ -676,7 +689,7 @@ def rand_elem(rng, depth=0):
 
 def gen_format(rng, quick):
     jobs = []
-    n = 1500 if quick else 12000
+    n = 1100 if quick else 12000
     for _ in range(n):
         nseg = rng.choice([0, 1, 1, 2, 2, 3, 4, 6])
         tpl = []
@@ -739,14 +752,48 @@ def gen_format(rng, quick):
     return jobs
 
 
+def gen_exhaustive(rng, quick):
+    """bounded-exhaustive words for the two state machines: every transition of the 5-state directive machine and of the
+    3-state template scanner is exercised by some word of length <= 3 (reach a state in <= 2 symbols, take the transition),
+    one more symbol tells the resulting states apart"""
+    import itertools
+    jobs = []
+    # directive machine: '{#' w '}' for all w over {+ . E % 5 x}
+    alpha = "+.E%5x"
+    full = 3 if quick else 5
+    words = [""]
+    for n in range(1, full + 1):
+        words += ["".join(w) for w in itertools.product(alpha, repeat=n)]
+    extra = ["".join(w) for w in itertools.product(alpha, repeat=full + 1)]
+    words += rng.sample(extra, 250 if quick else 3000)
+    for w in words:
+        jobs.append({"k": "format", "tpl": {"cps": [123, 35] + [ord(c) for c in w] + [125]}, "args": [N(rng.choice([1.5, -2.25, 0.0]))],
+                     "tag": "exhaustive-directive"})
+    # template scanner: all w over { '{' '}' 'a' } with as many arguments as there are '}' (and one more / one less)
+    full = 5 if quick else 8
+    tw = [""]
+    for n in range(1, full + 1):
+        tw += ["".join(w) for w in itertools.product("{}a", repeat=n)]
+    extra = ["".join(w) for w in itertools.product("{}a#", repeat=full + 1)]
+    tw += rng.sample(extra, 250 if quick else 3000)
+    for w in tw:
+        k = w.count("}")
+        for d in ((0,) if quick and len(w) > 3 else (0, 1, -1)):
+            if k + d < 0:
+                continue
+            # a '#' or 'a' inside braces makes a directive; numbers satisfy '#', fail on 'a' alike in model and code
+            jobs.append({"k": "format", "tpl": {"cps": [ord(c) for c in w]}, "args": [N(2.0)] * (k + d), "tag": "exhaustive-template"})
+    return jobs
+
+
 def gen_render(rng, quick):
     jobs = []
-    n = 2500 if quick else 20000
+    n = 1600 if quick else 20000
     for i in range(n):
         x = BOUNDARY_DOUBLES[i % len(BOUNDARY_DOUBLES)] if i < 3 * len(BOUNDARY_DOUBLES) else rand_double(rng)
         kind = rng.choice(["f", "f", "E", "E", "g"])
         p = rng.random()
-        prec = rng.randrange(0, 22) if p < 0.8 else (rng.randrange(22, 120) if p < 0.97 else rng.choice([340, 767, 1000, 1074]))
+        prec = rng.randrange(0, 22) if p < 0.8 else (rng.randrange(22, 120) if p < (0.995 if quick else 0.97) else rng.choice([340, 767, 1000, 1074]))
         if kind == "g":
             prec = 6
         jobs.append({"k": "render", "bits": bits_of(x), "verb": {"plus": rng.random() < 0.3, "prec": prec, "kind": kind},
@@ -767,14 +814,6 @@ def gen_render(rng, quick):
 
 # ----------------------------------------------------------------------------- entry point
 
-def calibrate_go_v():
-    """%v's exponent threshold is Go library behaviour: read it off the implementation once (1e20 prints as 1e+20 or as digits)."""
-    global GO_V_EPREC
-    out = core.harness(HARNESS, "render", [{"bits": bits_of(1e20), "verb": "%v"}, {"bits": bits_of(1234567.0), "verb": "%v"}])
-    s = "".join(chr(c) for c in out[1].get("s", []))
-    GO_V_EPREC = 6 if "e" in s else 21
-
-
 def load_corpus():
     p = os.path.join(core.VERIF, "corpus", "C14", "cases.json")
     if os.path.exists(p):
@@ -785,7 +824,6 @@ def load_corpus():
 def run(chk, replay=None):
     rng = chk.rng
     quick = chk.tier == "quick"
-    calibrate_go_v()
     if replay is not None:
         evaluate(chk, [replay["case"]])
         return
@@ -794,6 +832,7 @@ def run(chk, replay=None):
         j.setdefault("tag", "corpus")
     jobs += gen_textops(rng, quick)
     jobs += gen_format(rng, quick)
+    jobs += gen_exhaustive(rng, quick)
     jobs += gen_render(rng, quick)
     evaluate(chk, jobs)
     chk.coverage["rule"] = (
@@ -802,6 +841,6 @@ def run(chk, replay=None):
         "through the String API and through the interpreter; 长度/字数/字符组/分隔/匹配* on the same texts with separators taken from "
         "the text or random (incl. empty); templates of 0..6 segments generated from the grammar (literals without braces, directives "
         "'' or '#' '+'? ('.' digits)? ('E'|'%')?, precisions 0..80, 300, 999, 1000, 1001 .. 2^65) with 7% mutated directives, 6% brace "
-        "mutations, 6% count mismatches, 6% wrong argument kinds, arguments = numbers (boundary doubles, short decimals, halfway "
+        "mutations, 6% count mismatches, 6% wrong argument kinds, all directive words over {+ . E % 5 x} up to length 3 (thorough: 5) and all templates over {'{' '}' a} up to length 5 (thorough: 8) plus samples one longer (bounded-exhaustive coverage of every transition of the two state machines); arguments = numbers (boundary doubles, short decimals, halfway "
         "decimals, random bit patterns), texts, bools, 空, nested lists and dictionaries, functions/exceptions; every restated Go "
         "rendering (%.Nf %.NE %.6g, +, x*100, int()) against fmt.Sprintf; distinct = distinct job descriptions")
